@@ -33,7 +33,10 @@ def right_inverse_evaluated(repo: Repo, fi: FuncInfo):
         sw = aliasing_swaps(f_)
         if sw:
             return VIOLATION, f"`{unparse(sw[0])}` in {f_.name}: the right-hand sides are views, both rows end up equal instead of exchanged; the transformation becomes singular and G X != I", sw[0]
-    for G in NULL_SPACE_SAMPLES:
+    from .. import gf2
+
+    full_rank = [G for G in NULL_SPACE_SAMPLES if gf2.rank(gf2.rows_to_masks(G)) == len(G)]
+    for G in full_rank:
         k, n = len(G), len(G[0])
         try:
             run_fragment(fi.body, {"matrix": [list(r) for r in G]}, {}, max_steps=400000, materialise=True, funcs=funcs)
@@ -60,7 +63,7 @@ def right_inverse_evaluated(repo: Repo, fi: FuncInfo):
         return VIOLATION, "a generator without full row rank is answered with a matrix instead of being rejected (no right inverse exists)", None
     except (Unfoldable, TypeError, IndexError) as exc:
         return UNDECIDED, f"rank-deficient sample not evaluable ({exc})", None
-    return OK, f"G X = I over GF(2) with 0/1 entries on {len(NULL_SPACE_SAMPLES)} sample generators; a rank-deficient generator is rejected", None
+    return OK, f"G X = I over GF(2) with 0/1 entries on {len(full_rank)} full-rank sample generators; a rank-deficient generator is rejected", None
 
 
 def rule_right_inverse(repo: Repo, rep: Report) -> int:
